@@ -36,38 +36,42 @@ type waiterResult struct {
 }
 
 func runC11(t *testing.T, res *common.Result, rng *common.Rng) {
-	res.Rule = "matrix {SIGINT, SIGTERM} x server configurations x K workload points (quick: default config, K=3; thorough: 4 configs, K=10). " +
+	res.Rule = "matrix {SIGINT, SIGTERM} x server configurations x K workload points (quick: default config, K=3, one workload per signal; thorough: 5 configs, K=10, 3 seeded workloads per config and signal). " +
 		"The workload is a seeded sequence of up to 12 requests from 2 gRPC connections and 1 REST session: TryLock/Lock grants with no lease or a 60 s lease on size-1 and size-2 names, own Unlocks, " +
 		"and (request 4 at the latest) blocked Lock calls without wait timeout on a held name; the point is the number of requests issued when the signal is sent; at some points a churn of TryLock/Unlock requests is in flight too. " +
 		"A case is (signal, config, point, waiters in flight, churn, shape of the acknowledged hold set H by owner transport and lease); non-trivial when H is not empty or a waiter is in flight"
 	cfgs := []c11cfg{{"default", true, nil}}
-	K := 3
+	K, workloads := 3, 1
 	if common.Thorough() {
 		K = 10
 		cfgs = append(cfgs,
 			c11cfg{"no-clear-on-disconnect", true, []string{"--no_clear_on_disconnect"}},
 			c11cfg{"one-shard", true, []string{"--shards", "1"}},
-			c11cfg{"no-rest", false, nil})
+			c11cfg{"no-rest", false, nil},
+			c11cfg{"fast-gc", true, []string{"--lock_gc_interval", "1s", "--lock_gc_min_idle", "0s"}})
+		workloads = 3
 	}
 	const N = 12
 	n := 0
 	for _, cfg := range cfgs {
 		for _, sig := range []syscall.Signal{syscall.SIGINT, syscall.SIGTERM} {
-			r := rng.Fork(uint64(n))
-			n++
-			// points: one before the first waiter can exist, the end of the workload, the rest anywhere
-			pts := map[int]bool{1 + r.Intn(3): true, N: true}
-			for len(pts) < K {
-				pts[1+r.Intn(N)] = true
-			}
-			points := []int{}
-			for p := range pts {
-				points = append(points, p)
-			}
-			sort.Ints(points)
-			for i, p := range points {
-				churn := i%3 == 1
-				c11Scenario(t, res, r.Fork(uint64(p)), cfg, sig, p, N, churn)
+			for w := 0; w < workloads; w++ {
+				r := rng.Fork(uint64(n))
+				n++
+				// points: one before the first waiter can exist, the end of the workload, the rest anywhere
+				pts := map[int]bool{1 + r.Intn(3): true, N: true}
+				for len(pts) < K {
+					pts[1+r.Intn(N)] = true
+				}
+				points := []int{}
+				for p := range pts {
+					points = append(points, p)
+				}
+				sort.Ints(points)
+				for i, p := range points {
+					churn := i%3 == 1
+					c11Scenario(t, res, r.Fork(uint64(p)), cfg, sig, p, N, churn)
+				}
 			}
 		}
 	}
@@ -334,6 +338,7 @@ func c11Scenario(t *testing.T, res *common.Result, rng *common.Rng, cfg c11cfg, 
 				res.Count("state-file:kept:" + map[bool]string{true: "rest", false: "grpc"}[h.Owner == "rest"])
 			}
 		}
+		res.Count(fmt.Sprintf("state-file:scenarios-with-missing-holds=%v", len(missing) > 0))
 		if len(missing) > 0 {
 			find("holds-cleared", fmt.Sprintf("after %s the state file lacks %d of the %d holds that were live at shutdown (all of them must stay)", sigName(sig), len(missing), len(H)),
 				map[string]any{"missing": missing, "state_file": holdStrings(st), "log_tail": srv.logTail(40)})
